@@ -144,36 +144,43 @@ void harness(void) {
   __CPROVER_assert(!(in_index == arr->metadata.array_metadata.end_ptr), "COVER index == size");
 }
 #elif defined(H_ARRAY_SET)
+/* cbor_array_set is a three-way dispatcher over push and replace (both represented by their contracts);
+ * its specification is asserted here instead of being a contract of its own: nothing in the library calls it,
+ * and a contract with the union of both callees' conditional frames did not finish on any back end */
 void harness(void) {
   SETUP();
   cbor_item_t *arr = mk_array(), *value = mk_elem();
   size_t in_index = nondet_size();
-  size_t in_end = arr->metadata.array_metadata.end_ptr;
+  size_t in_end = arr->metadata.array_metadata.end_ptr, in_alloc = arr->metadata.array_metadata.allocated;
+  size_t in_rc = value->refcount;
+  unsigned char *in_data = arr->data;
   if (in_index < in_end) {
     cbor_item_t *old = mk_elem();
     ((cbor_item_t **)arr->data)[in_index] = old;
+    g_s.item = old;
   }
-#if defined(SET_CASE_BELOW)
-  __CPROVER_assume(in_index < in_end);
-#elif defined(SET_CASE_AT)
-  __CPROVER_assume(in_index == in_end);
-#elif defined(SET_CASE_ABOVE)
-  __CPROVER_assume(in_index > in_end);
-#endif
+  g_s.valid = in_index < in_end; /* the snapshot describes slot in_index for the replace case */
+  g_k = in_index;
   bool r = cbor_array_set(arr, in_index, value);
-#if defined(SET_CASE_BELOW)
-  __CPROVER_assert(!r, "COVER set replaces");
-#elif defined(SET_CASE_AT)
-  __CPROVER_assert(!r, "COVER set pushes at size");
-  __CPROVER_assert(r, "COVER push at size refused");
-#elif defined(SET_CASE_ABOVE)
-  __CPROVER_assert(r, "COVER set beyond size refused");
-#endif
-#if 0
+  if (in_index > in_end) {
+    __CPROVER_assert(!r && arr->metadata.array_metadata.end_ptr == in_end && value->refcount == in_rc && arr->data == in_data,
+                     "C12: set above size is refused and nothing changes (no holes)");
+  } else if (in_index < in_end) {
+    __CPROVER_assert(r && arr->metadata.array_metadata.end_ptr == in_end && ((cbor_item_t **)arr->data)[in_index] == value,
+                     "C12: set below size replaces the element, size unchanged");
+  } else if (r) {
+    __CPROVER_assert(arr->metadata.array_metadata.end_ptr == in_end + 1 && ((cbor_item_t **)arr->data)[in_index] == value &&
+                     value->refcount == in_rc + 1, "C12,C04: set at size appends (push)");
+  } else {
+    __CPROVER_assert(arr->metadata.array_metadata.end_ptr == in_end && value->refcount == in_rc && arr->data == in_data,
+                     "C12,C06: refused push at size changes nothing");
+  }
+  __CPROVER_assert(arr->metadata.array_metadata.end_ptr <= arr->metadata.array_metadata.allocated, "C12: size never exceeds capacity");
   __CPROVER_assert(!(r && in_index < in_end), "COVER set replaces");
   __CPROVER_assert(!(r && in_index == in_end), "COVER set pushes at size");
+  __CPROVER_assert(!(!r && in_index == in_end), "COVER push at size refused");
   __CPROVER_assert(!(in_index > in_end), "COVER set beyond size refused");
-#endif
+  (void)in_alloc;
 }
 #endif
 
